@@ -1,0 +1,43 @@
+//go:build verif
+
+package shared
+
+import "github.com/relex/slog-agent/base"
+
+// Add-only exports for the verification harness (property C11). Nothing here is compiled without the
+// "verif" build tag.
+
+// VerifChunkIDGenerator wraps the unexported chunkIDGenerator.
+type VerifChunkIDGenerator struct{ g *chunkIDGenerator }
+
+// VerifNewChunkIDGenerator calls the real constructor.
+func VerifNewChunkIDGenerator(suffix string) VerifChunkIDGenerator {
+	return VerifChunkIDGenerator{newChunkIDGenerator(suffix)}
+}
+
+// VerifPackerIDGenerator returns the generator used by a LogChunkMaker made by NewMessagePacker (ok=false otherwise).
+func VerifPackerIDGenerator(maker base.LogChunkMaker) (VerifChunkIDGenerator, bool) {
+	packer, ok := maker.(*messagePacker)
+	if !ok || packer.chunkFactory == nil {
+		return VerifChunkIDGenerator{}, false
+	}
+	return VerifChunkIDGenerator{packer.chunkFactory.idGenerator}, true
+}
+
+// Generate calls the real Generate.
+func (v VerifChunkIDGenerator) Generate() string { return v.g.Generate() }
+
+// State reads the generator's state.
+func (v VerifChunkIDGenerator) State() (epochNano int64, sequence int32) {
+	v.g.Lock()
+	defer v.g.Unlock()
+	return v.g.epochNano, v.g.sequence
+}
+
+// SetState overwrites the generator's state (the harness uses it to put the wall clock before or after the epoch).
+func (v VerifChunkIDGenerator) SetState(epochNano int64, sequence int32) {
+	v.g.Lock()
+	defer v.g.Unlock()
+	v.g.epochNano = epochNano
+	v.g.sequence = sequence
+}
